@@ -398,7 +398,7 @@ def run_shared_dir(base: Base, sc, d, log, stats):
     cfgs = {"R": base.cfg, "S": S}
     os.makedirs(d)
     seen = set()
-    order = ("R", "S", "R", "S")
+    order = ("R", "S", "R", "S") * (3 if sc.get("rounds") == 3 else 1)
     same_process = bool(sc.get("same_process"))
     if same_process:
         # all four requests inside one process lifetime: whatever the library keeps in memory between requests is in play
@@ -749,7 +749,7 @@ def scenarios_for(rng: random.Random, R: dict, layout: dict, tier: str) -> list:
     fv = foreign_variants(rng, R)
     sc += fv
     # the same one-field neighbours, but as *independent users of the same cache directory*
-    sc += [{"kind": "shared-dir", "field": x["field"], "cfg": x["cfg"], "same_process": rng.random() < 0.5} for x in fv if x["kind"] == "foreign"]
+    sc += [{"kind": "shared-dir", "field": x["field"], "cfg": x["cfg"], "same_process": rng.random() < 0.5, "rounds": 3 if rng.random() < 0.2 else 1} for x in fv if x["kind"] == "foreign"]
     if R.get("applied_filters"):
         sc += [{"kind": "shared-dir", "field": "n_mazes-survivors", "cfg": None, "same_process": sp} for sp in (False, True)]
     # multi-fault histories
